@@ -2,6 +2,7 @@
 
 #include <yaclib/fault/detail/fiber/atomic_wait.hpp>
 
+#include <cstring>
 #include <utility>
 
 namespace yaclib::detail::fiber {
@@ -70,7 +71,8 @@ class AtomicBase : public AtomicWait<T> {
 
  protected:
   bool CompareExchangeHelper(T& expected, T desired) {
-    if (this->_value == expected) {
+    // std::atomic compares object representations, not values: -0.0 != +0.0 and NaN == the same NaN
+    if (std::memcmp(&this->_value, &expected, sizeof(T)) == 0) {
       this->_value = desired;
       return true;
     } else {
